@@ -20,67 +20,69 @@ struct BigIdxArray { int opaque; };             /* `participating`, only handed 
 
 /* ---------------------------------------------------------------------------------------------
    Abstract arithmetic. Symbolic double*double, /, sqrt are out of reach of every back end here
-   (README), so the extractor rewrites them to vf_* calls. Each vf_* is a dependency BY CONTRACT:
-   the result is the value of an uninterpreted function of the operand bit patterns (so equal
-   operands give equal results and contracts can talk about "the product the code computed"),
-   plus the trusted IEEE-754 lemma stated in its ensures (correct rounding is monotone and sign
-   preserving). The contracts are listed in the evidence as assumptions.
+   (README), so the extractor rewrites them to vf_* calls. Each vf_* is a dependency BY CONTRACT: a
+   trusted IEEE-754 lemma (correct rounding is monotone and sign preserving) stated in its ensures.
+   The lemma stubs also log their operands/results to ghost cells (pure bookkeeping) so that callers'
+   contracts can say WHICH values were multiplied ("one common scale", "each component scaled once")
+   with bit equalities only - recomputing float sums inside a contract makes SAT prove floating-point
+   adder equivalence, which does not finish.  The contracts are listed in the evidence as assumptions.
    --------------------------------------------------------------------------------------------- */
-double __CPROVER_uninterpreted_sq(double);
-double __CPROVER_uninterpreted_mul(double, double);
-double __CPROVER_uninterpreted_div(double, double);
-double __CPROVER_uninterpreted_sqrt(double);
-#define U_sq(x)    __CPROVER_uninterpreted_sq(x)
-#define U_mul(a,b) __CPROVER_uninterpreted_mul(a,b)
-#define U_div(a,b) __CPROVER_uninterpreted_div(a,b)
-#define U_sqrt(x)  __CPROVER_uninterpreted_sqrt(x)
 /* bit identity (distinguishes +0/-0, equates a NaN with itself) */
 static inline _Bool same_bits(double a, double b) { union { double d; unsigned long long u; } x, y; x.d = a; y.d = b; return x.u == y.u; }
 #define NOTNAN(x)  (!__CPROVER_isnand(x))
 #define FINITE(x)  (!__CPROVER_isnand(x) && !__CPROVER_isinfd(x))
-#define BIG 1e150                       /* |x| <= BIG  ==>  x*x is finite (1e300 < DBL_MAX) */
+#define BIG 1e150                       /* |x| <= BIG  ==>  x*x is finite (about 1e300 < DBL_MAX) */
 
+extern int  g_ratio_n;  extern Real g_ratio_res;                       /* vf_sqrt_ratio log */
+extern int  g_sc_n;     extern Real g_sc_x[4], g_sc_s[4], g_sc_r[4];    /* vf_scale log      */
+
+#ifndef EXACT_SQ
 /* square(x) = x*x : non-negative (possibly +inf) for non-NaN x, exactly 0 for x==0, finite for |x|<=1e150 */
 double vf_sq(double x)
 __CPROVER_assigns()
-__CPROVER_ensures(same_bits(__CPROVER_return_value, U_sq(x)))
 __CPROVER_ensures(NOTNAN(x) ==> __CPROVER_return_value >= 0.0)
 __CPROVER_ensures(x == 0.0 ==> __CPROVER_return_value == 0.0)
 __CPROVER_ensures((-BIG <= x && x <= BIG) ==> __CPROVER_return_value <= 1e301)
 ;
-/* a*b : sign lemma; product of non-negative finite operands is non-negative and not NaN; x*0 == 0 for finite x */
+/* a*b : product of finite operands is not NaN, of non-negative finite operands non-negative; x*0 == 0 for finite x */
 double vf_mul(double a, double b)
 __CPROVER_assigns()
-__CPROVER_ensures(same_bits(__CPROVER_return_value, U_mul(a, b)))
 __CPROVER_ensures((FINITE(a) && FINITE(b)) ==> NOTNAN(__CPROVER_return_value))
 __CPROVER_ensures((a >= 0.0 && b >= 0.0 && FINITE(a) && FINITE(b)) ==> __CPROVER_return_value >= 0.0)
 __CPROVER_ensures((0.0 <= a && a <= BIG && 0.0 <= b && b <= BIG) ==> __CPROVER_return_value <= 1e301)
 __CPROVER_ensures(((a == 0.0 && FINITE(b)) || (b == 0.0 && FINITE(a))) ==> __CPROVER_return_value == 0.0)
 ;
-/* a/b : only "not NaN for finite a and finite b != 0" is used (doUpdate) */
+#else
+/* bounded stand-in units: the real products (SimTK square(x) is x*x), decided by SAT on a small integer domain */
+static inline double vf_sq(double x) { return x * x; }
+static inline double vf_mul(double a, double b) { return a * b; }
+#endif
+/* a/b : no property used (doUpdate's frame does not depend on the value) */
 double vf_div(double a, double b)
+__CPROVER_requires(1)
 __CPROVER_assigns()
-__CPROVER_ensures(same_bits(__CPROVER_return_value, U_div(a, b)))
-__CPROVER_ensures((NOTNAN(a) && FINITE(b) && b != 0.0 && !(__CPROVER_isinfd(a) && __CPROVER_isinfd(b))) ==> NOTNAN(__CPROVER_return_value))
+__CPROVER_ensures(1)
 ;
 /* sqrt(a/b) for 0 <= a < b (b may be +inf, a finite): lies in [0,1]  (fl(a/b) in [0,1] by monotone
-   rounding, sqrt maps [0,1] into [0,1]). This is the comment `0 <= scale < 1` in the code. */
+   rounding, sqrt maps [0,1] into [0,1]). This is the comment `0 <= scale < 1` in the code.
+   The REQUIRES is checked at the call site: scaling happens only when strictly outside, and never on NaN. */
 double vf_sqrt_ratio(double a, double b)
 __CPROVER_requires(0.0 <= a && a < b && !__CPROVER_isinfd(a))
-__CPROVER_assigns()
-__CPROVER_ensures(same_bits(__CPROVER_return_value, U_sqrt(U_div(a, b))))
+__CPROVER_assigns(g_ratio_n, g_ratio_res)
 __CPROVER_ensures(0.0 <= __CPROVER_return_value && __CPROVER_return_value <= 1.0)
+__CPROVER_ensures(g_ratio_n == __CPROVER_old(g_ratio_n) + 1 && same_bits(g_ratio_res, __CPROVER_return_value))
 ;
-/* x*s for 0 <= s <= 1: magnitude does not grow, sign kept (or result is a zero) */
+/* x*s for 0 <= s <= 1 and finite x: magnitude does not grow, sign kept (or result is a zero) */
 double vf_scale(double x, double s)
-__CPROVER_requires(0.0 <= s && s <= 1.0 && FINITE(x))
-__CPROVER_assigns()
-__CPROVER_ensures(same_bits(__CPROVER_return_value, U_mul(x, s)))
+__CPROVER_requires(0.0 <= s && s <= 1.0 && FINITE(x) && 0 <= g_sc_n && g_sc_n < 4)
+__CPROVER_assigns(g_sc_n, g_sc_x[g_sc_n], g_sc_s[g_sc_n], g_sc_r[g_sc_n])
 __CPROVER_ensures(x >= 0.0 ==> (0.0 <= __CPROVER_return_value && __CPROVER_return_value <= x))
 __CPROVER_ensures(x <= 0.0 ==> (x <= __CPROVER_return_value && __CPROVER_return_value <= 0.0))
+__CPROVER_ensures(g_sc_n == __CPROVER_old(g_sc_n) + 1 && same_bits(g_sc_x[__CPROVER_old(g_sc_n)], x) && same_bits(g_sc_s[__CPROVER_old(g_sc_n)], s) && same_bits(g_sc_r[__CPROVER_old(g_sc_n)], __CPROVER_return_value))
 ;
 /* Matrix element read A(r,c): pure, in range; value is whatever the matrix holds */
 Real Mat_get(const struct Mat* A, int r, int c)
 __CPROVER_requires(0 <= r && r < A->m && 0 <= c && c < A->m)
 __CPROVER_assigns()
+__CPROVER_ensures(1)
 ;
